@@ -142,7 +142,7 @@ def check_serialize(ctx):
             if own is None:
                 own = {f"rotations_{'local' if 'local' in slot else 'remote'}"} if slot.startswith("rotation_") else {slot}
             others = set()
-            for t, pol in G.enclosing_tests(fn, st):
+            for t, pol in G.path_conditions(fn, st):
                 for x in ast.walk(t):
                     if isinstance(x, ast.Attribute) and isinstance(x.value, ast.Name) and x.value.id == pp and x.attr not in own:
                         others.add(x.attr)
